@@ -557,3 +557,128 @@ func VerifC09_MySQLPreparedSearch() {
 	}
 	verif.Assert(len(fwd[0]) > 0 && len(fwd[0]) <= len(stored) && verif.Eq(fwd[0], stored[:len(fwd[0])]), "search-index-is-the-stored-prefix")
 }
+
+// VerifC14_MySQLRowDecoders: result rows are bytes returned by the database. Whatever they are, decoding a text row or
+// a binary (prepared statement) row against the column list ends with an error or a row, never with a panic; a row
+// the decoder accepts and that carries nothing protected comes back unchanged.
+func VerifC14_MySQLRowDecoders() {
+	store := verifKeys()
+	h, ctx, _ := verifProxy(store, "A", config.CryptoEnvelopeTypeAcraBlock)
+	hi := 5
+	if verif.Tier() == 1 {
+		hi = 8
+	}
+	row := verif.Bytes("row", verif.Choose("n", 1, hi))
+	keep := verifDup(row)
+	binaryRow := verif.Choose("binary", 0, 1) == 1
+	var fields []*ColumnDescription
+	switch verif.Choose("fields", 0, 2) {
+	case 0:
+		fields = []*ColumnDescription{{Name: []byte("id"), Type: base_mysql.TypeLong}}
+	case 1:
+		fields = []*ColumnDescription{{Name: []byte("plain"), Type: base_mysql.TypeVarString}}
+	case 2:
+		fields = []*ColumnDescription{{Name: []byte("id"), Type: base_mysql.TypeLongLong}, {Name: []byte("plain"), Type: base_mysql.TypeBlob}}
+	}
+	var out []byte
+	var err error
+	if binaryRow {
+		out, err = h.processBinaryDataRow(ctx, row, fields)
+	} else {
+		out, err = h.processTextDataRow(ctx, row, fields)
+	}
+	verif.Reach("decoded")
+	if err == nil {
+		verif.Assert(len(out) <= len(keep), "accepted-row-not-longer")
+	}
+}
+
+// VerifC14_MySQLClientPackets: bytes supplied by a client. A COM_STMT_EXECUTE payload of any content for a registered
+// statement with 1..2 parameters, and a column definition packet of any content, end with an error or a result,
+// never with a panic.
+func VerifC14_MySQLClientPackets() {
+	store := verifKeys()
+	h, ctx, parser := verifProxy(store, "A", config.CryptoEnvelopeTypeAcraBlock)
+	hi := 6
+	if verif.Tier() == 1 {
+		hi = 10
+	}
+	if verif.Choose("what", 0, 1) == 0 {
+		np := verif.Choose("params", 1, 2)
+		q := "insert into t (id, secret) values (?, ?)"
+		if np == 1 {
+			q = "insert into t (secret) values (?)"
+		}
+		if !verifPrepare(h, ctx, parser, 1, q, np) {
+			return
+		}
+		// everything after the command byte is the client's; when it is long enough to name a statement, it names ours
+		tail := verif.Bytes("tail", verif.Choose("n", 0, hi+4))
+		if len(tail) >= 4 {
+			verif.Assume(verif.And(tail[0] == 1, tail[1] == 0, tail[2] == 0, tail[3] == 0))
+		}
+		data := append([]byte{CommandStatementExecute}, tail...)
+		packet := NewPacket()
+		packet.SetData(data)
+		h.handleStatementExecute(ctx, packet)
+		verif.Reach("execute-handled")
+		return
+	}
+	data := verif.Bytes("field", verif.Choose("n", 0, hi))
+	packet := NewPacket()
+	packet.SetData(data)
+	ParseResultField(packet, verif.Bool("mariadb-extended"))
+	verif.Reach("field-parsed")
+}
+
+// VerifC12_MySQLRowReframe: a text row whose protected column shrinks to a plaintext of 250, 251 or 252 bytes (the
+// length prefix changes its form at 251) is re-framed correctly: declared lengths equal actual ones, the neighbours
+// keep their bytes, NULL stays NULL.
+func VerifC12_MySQLRowReframe() {
+	store := verifKeys()
+	h, ctx, parser := verifProxy(store, "A", config.CryptoEnvelopeTypeAcraBlock)
+	n := 250 + verif.Choose("extra", 0, 2)
+	plain := make([]byte, n)
+	for i := range plain {
+		plain[i] = 'p'
+	}
+	copy(plain, verifMarker("head", 2))
+	obj, changed, err := h.queryObserverManager.OnQuery(ctx, emysql.NewOnQueryObjectFromQuery(verifFill("insert into t (id, secret, plain) values (1, '%s', 'keep')", plain), parser))
+	if err != nil || !changed {
+		verif.Assert(false, "write-rewritten")
+		return
+	}
+	stored, ok := verifStoredHexLiteral(obj.Query())
+	if !ok {
+		verif.Assert(false, "protected-value-is-a-hex-literal")
+		return
+	}
+	var first []byte
+	nullFirst := verif.Choose("first-null", 0, 1) == 1
+	if nullFirst {
+		first = []byte{0xfb}
+	} else {
+		first = base_mysql.PutLengthEncodedString([]byte("1"))
+	}
+	row := append(verifDup(first), base_mysql.PutLengthEncodedString(stored)...)
+	row = append(row, base_mysql.PutLengthEncodedString([]byte("keep"))...)
+	fields := []*ColumnDescription{{Name: []byte("id")}, {Name: []byte("secret")}, {Name: []byte("plain")}}
+	out, err := h.processTextDataRow(ctx, verifDup(row), fields)
+	verif.Reach("row-processed")
+	verif.Assert(err == nil, "row-no-error")
+	if err != nil {
+		return
+	}
+	// independent re-decoding of the rewritten row
+	var prefix []byte
+	if n <= 250 {
+		prefix = []byte{byte(n)}
+	} else {
+		prefix = []byte{0xfc, byte(n), byte(n >> 8)}
+	}
+	want := append(verifDup(first), prefix...)
+	want = append(want, plain...)
+	want = append(want, 4, 'k', 'e', 'e', 'p')
+	verif.Assert(len(out) == len(want), "rewritten-row-length")
+	verif.Assert(verif.Eq(out, want), "rewritten-row-well-formed")
+}
